@@ -147,6 +147,7 @@ func c02Specs(tier string) []*XSpec {
 		return &XSpec{Property: "C02", Name: c.Name, Cfg: c, Alphabet: al, Depth: d, Keys: keys, ExecNode: c02ExecNode}
 	}
 	base := perKey(keys, Op{K: "set", V: "s"}, Op{K: "del"}, Op{K: "set", V: "r257"})
+	base = append(base, Op{K: "set", V: "r256", Key: "a"}) // a record that ends exactly on a block boundary
 	glob := []Op{{K: "flush"}, {K: "bg"}, {K: "dump"}, {K: "merge"}, {K: "restart", A: []int{0}}, {K: "restart", A: []int{1}}, {K: "restart", A: []int{3}}}
 	al := append(append([]Op{}, base...), glob...)
 	vh := append(append([]Op{}, al...), perKey(keys, Op{K: "setsame", Rev: 3})...)
